@@ -108,7 +108,7 @@ class ProjectResultRegistry(ProjectRegistry):
                     stacklevel=3,
                 )
             previous_result_paths = self.previous_result_paths(name) or [Path(name)]
-            name = previous_result_paths[-1].stem
+            name = previous_result_paths[-1].name
         path = self._directory / name
         if self.is_item(path):
             if _vt.ENABLED:
@@ -139,7 +139,7 @@ class ProjectResultRegistry(ProjectRegistry):
         previous_results = self.previous_result_paths(base_name)
         if not previous_results:
             return f"{base_name}_run_0000"
-        latest_result_run_nr = int(previous_results[-1].stem.replace(f"{base_name}_run_", ""))
+        latest_result_run_nr = int(previous_results[-1].name.replace(f"{base_name}_run_", ""))
         return f"{base_name}_run_{latest_result_run_nr+1:04}"
 
     def save(self, name: str, result: Result):
